@@ -339,14 +339,22 @@ def history(ctx, r, lines, expect, meta):
                 bym = {None: 'none', 'energy': 'energy', 'num_occurrences': 'occ'}.get(by) or 'x' + str(ref.fields.index(by))
                 if op == 'slice':
                     args = [r.choice([None, -7, -3, -2, -1, 0, 1, 2, 3, 5, 9]) for _ in range(r.randint(0, 3))]
-                    if len(args) == 3 and r.random() < .9 and args[2] == 0:
+                    if len(args) == 3 and r.random() < .6 and args[2] == 0:
                         args[2] = None
+                    if len(args) == 3 and args[2] is not None:
+                        ctx.tick('slice step 0' if args[2] == 0 else 'slice negative step' if args[2] < 0 else 'slice positive step')
+                    if any(a is not None and a < 0 for a in args[:2]):
+                        ctx.tick('slice negative start/stop')
+                    if any(a is not None and abs(a) > len(ref.rows) for a in args[:2]):
+                        ctx.tick('slice oversize bound')
+                    ctx.tick(f'slice sorted_by={by}')
                     full = ([None, None, None] if not args else [None, args[0], None] if len(args) == 1 else args + [None] * (3 - len(args)))
                     code = f"out = ss.slice({', '.join(map(repr, args))}{', ' if args else ''}sorted_by={by!r})"
                     line = 'slice 0 0 ' + bym + ' ' + ' '.join('-' if a is None else str(a) for a in full)
                     exp = ref.slice(by, slice(*full)) if full[2] != 0 else None
                 else:
                     k = r.randint(-2, 7)
+                    ctx.tick(f'truncate sorted_by={by}' + (' negative n' if k < 0 else ''))
                     code = f'out = ss.truncate({k}, sorted_by={by!r})'; line = f'truncate 0 0 {bym} {k}'
                     exp = ref.slice(by, slice(k))
                 if by is not None:
@@ -358,6 +366,11 @@ def history(ctx, r, lines, expect, meta):
                     rt, at = r.choice([F(0), F(1, 4), F(1, 8), F(1, 2), F(1), F(3, 2), F(2)]), r.choice([F(0), F(1, 2), F(1), F(4)])     # large rtol: the band is scaled by |min|
                     code = f'out = ss.lowest(rtol={float(rt)!r}, atol={float(at)!r})'
                 line = f'lowest 0 0 {rat(rt)} {rat(at)}'; exp = ref.lowest(rt, at)
+                ctx.tick('lowest default tolerances' if 'tol' not in code else 'lowest rtol/atol given')
+                if not ref.rows:
+                    ctx.tick('lowest empty receiver')
+                elif min(row[1] for row in ref.rows) < 0:
+                    ctx.tick('lowest negative minimum' + (' rtol>0' if rt > 0 and 'tol' in code else ''))
             elif op == 'filter':
                 if r.random() < .35:
                     # a predicate returning numbers (truthy / falsy), not booleans: the mask must be coerced to bool
@@ -370,10 +383,15 @@ def history(ctx, r, lines, expect, meta):
                         v = r.choice(ref.labels); j = ref.labels.index(v)
                         code = f'out = ss.filter(lambda d: d.sample[{v!r}])'; fsrc = f'col:{j}'; val = lambda row, j=j: row[0][j]
                     line = f'filternz 0 0 {fsrc}'; exp = ref.filter(lambda row: val(row) != 0); spec_line = True
+                    ctx.tick('filter numeric predicate')
+                    if ref.rows and not exp.rows:
+                        ctx.tick('filter keeps no row')
                 elif r.random() < .5 or not ref.rows:
                     thr = F(r.randint(-8, 8), 4)
                     code = f'out = ss.filter(lambda d: d.energy <= {float(thr)!r})'
                     line = f'filterle 0 0 energy {rat(thr)}'; exp = ref.filter(lambda row: row[1] <= thr); spec_line = True
+                    if ref.rows and not exp.rows:
+                        ctx.tick('filter keeps no row')
                 else:
                     v = r.choice(ref.labels) if ref.labels else None
                     if v is None:
@@ -417,11 +435,22 @@ def history(ctx, r, lines, expect, meta):
                 if r.random() < .1 and ref.labels:
                     nl[0] = r.choice(ref.labels)
                 k = r.choice([1, len(ref.rows), len(ref.rows), 2])
+                form = r.choice(['tuple', 'tuple', 'dict', 'SampleSet'])
+                if form == 'dict':
+                    k = 1                  # a mapping of constants: one row, repeated for every sample
                 plain = ref.vt == 'INTEGER' and k > 0 and r.random() < .4
                 nr = [gen_values(r, ref.vt, len(nl), boundary=plain) for _ in range(k)]
                 sort = r.random() < .5
                 arr_src = repr([[int(x) for x in row] for row in nr]) if plain else f'np.array({[[float(x) for x in row] for row in nr]!r}).reshape({k}, {len(nl)})'
-                code = f'out = dimod.append_variables(ss, ({arr_src}, {nl!r}), sort_labels={sort})'
+                if form == 'dict':
+                    like = '{' + ', '.join(f'{v!r}: {(int(x) if ref.vt != "REAL" else float(x))!r}' for v, x in zip(nl, nr[0])) + '}'
+                elif form == 'SampleSet':
+                    like = f'dimod.SampleSet.from_samples(({arr_src}, {nl!r}), {ref.vt!r}, energy=[7.0] * {k}, sort_labels=False)'
+                else:
+                    like = f'({arr_src}, {nl!r})'
+                code = f'out = dimod.append_variables(ss, {like}, sort_labels={sort})'
+                ctx.tick(f'append_vars {form}: ' + ('label clash' if any(v in ref.labels for v in nl) else 'one row per sample' if k == len(ref.rows)
+                                                   else 'one row broadcast' if k == 1 and ref.rows else 'wrong number of rows'))
                 line = f'appendvars 0 0 {int(sort)} ' + ','.join(lab(v) for v in nl) + ' ' + ('|'.join(','.join(rat(x) for x in row) for row in nr) or '-')
                 exp = ref.append_vars(nl, [[F(x) for x in row] for row in nr], sort)
             elif op in ('change', 'change_ip'):
@@ -435,23 +464,34 @@ def history(ctx, r, lines, expect, meta):
                 m = len(ref.rows) if r.random() < .9 else len(ref.rows) + 1
                 two = r.random() < .4
                 vals = [[r.randint(-3, 3), r.randint(0, 5)] if two else [r.randint(-5, 5)] for _ in range(m)]
-                if not two and name == 'energy':
+                if not two and name == 'energy' and r.random() < .5:
                     name = 'nv'
                 code = f'out = dimod.append_data_vectors(ss, {name}={[v if two else v[0] for v in vals]!r})'
                 line = f'appendvec 0 0 {name} ' + ('|'.join(':'.join(str(x) for x in v) for v in vals) or '-')
                 exp = ref.append_vec(name, [[F(x) for x in v] for v in vals]) if m else None
-                if m == 0 or not ref.labels or (name in ref.fields or name in REQ):
-                    line = None      # NumPy's own behaviour for empty / clashing fields is not dimod's to define
+                if m == 0 or not ref.labels:
+                    line = None      # NumPy's own behaviour for empty records / zero-width sample fields is not dimod's to define
                     exp = 'any'
+                else:
+                    ctx.tick('append_vec ' + ('wrong length' if m != len(ref.rows) else 'name clash' if (name in ref.fields or name in REQ)
+                                              else '2-d vector' if two else 'scalar vector'))
             elif op == 'concat':
                 if not set(ref.fields) <= {'ex', 'ev'} or not ref.labels:
                     continue      # numpy.lib.recfunctions cannot stack zero-width sub-array fields (IndexError inside numpy.ma)
-                k = r.randint(1, 2)
+                k = r.choice([0, 1, 1, 2, 2])
                 o_src, o_refs = [], []
+                mism = k > 0 and r.random() < .08       # one later set over other variables: must be rejected
+                empty_list = r.random() < .04
                 mixed = r.random() < .4             # sample sets with different data vectors (stack_arrays fills the gaps)
                 for j in range(k):
                     vt2 = ref.vt if r.random() < .7 else r.choice(['SPIN', 'BINARY'])
                     labs2 = r.sample(ref.labels, len(ref.labels))
+                    if mism and j == k - 1:
+                        labs2 = labs2[:-1] if r.random() < .5 else labs2 + ['other']
+                    if labs2 != ref.labels:
+                        ctx.tick('concat label order differs')
+                    if vt2 != ref.vt:
+                        ctx.tick('concat vartype differs')
                     flds = [f for f in ['ex', 'ev'] if r.random() < .5] if mixed else ref.fields
                     s2, r2 = gen_ss(r, labels=labs2, vt=vt2, fields=flds, dt=ss.record.sample.dtype.name,
                                     m=r.choice([1, 2, 3]) if mixed else None)  # NumPy's stack_arrays wants equal field dtypes
@@ -460,18 +500,27 @@ def history(ctx, r, lines, expect, meta):
                 if mixed and r.random() < .5:
                     defaults = {f: F(r.randint(-3, 3)) for f in ['ex', 'ev'] if r.random() < .7}
                 dsrc = '' if defaults is None else ', defaults={' + ', '.join(f'{f!r}: {int(v)}' for f, v in defaults.items()) + '}'
-                code = '\n'.join(o_src) + f"\nout = dimod.concatenate([ss, {', '.join('o%d' % j for j in range(k))}]{dsrc})"
+                code = '\n'.join(o_src) + ('\n' if o_src else '') + f"out = dimod.concatenate([{', '.join(['ss'] + ['o%d' % j for j in range(k)])}]{dsrc})"
                 exp = concat_ref([ref] + o_refs, defaults)
                 others = o_refs
                 if mixed and len(ref.rows) == 0:
                     continue
+                if empty_list:
+                    code = f'out = dimod.concatenate([]{dsrc})'; exp = None; others = []; mixed = False; k = -1
+                    ctx.tick('concat empty list')
+                elif k == 0:
+                    ctx.tick('concat single input')
+                elif mism:
+                    ctx.tick('concat variables mismatch')
+                if defaults is not None and not empty_list:
+                    ctx.tick('concat with defaults')
                 if mixed:
                     ctx.tick('concat differing fields')
                     fills = {f: (defaults or {}).get(f, NUMPY_FILL[f]) for f in ['ex', 'ev']}
-                    line = ('concatd 0 0,' + ','.join(str(j + 1) for j in range(k)) + ' '
+                    line = ('concatd 0 ' + ','.join(['0'] + [str(j + 1) for j in range(k)]) + ' '
                             + ','.join(f"{f}={':'.join([rat(v)] * WIDTH[f])}" for f, v in fills.items()))
                 else:
-                    line = 'concat 0 0,' + ','.join(str(j + 1) for j in range(k))
+                    line = 'concat 0 ' + (','.join(['0'] + [str(j + 1) for j in range(k)]) if k >= 0 else '-')
             elif op == 'copy':
                 code = 'out = ss.copy()'; line = 'copy 0 0'; exp = ref.copy()
             elif op in ('first', 'data', 'samples'):
@@ -755,29 +804,46 @@ def lazy_cases(ctx, r, lines, expect, meta, ncases):
             code.append('fut.set_result(ss.copy())')
         lines.append(f'future 0 1 {int(early)}'); expect.append(f'ok done={int(early)} {t0}'); meta.append(('future', ['\n'.join(code)], None))
         cur_ref = ref
-        nops = r.randint(1, 3)
+        nops = r.randint(1, 4)
         reg = 1
         set_done = early
+        chain = []
         for k in range(nops):
-            kind = r.choice(['relabel', 'relabel', 'change'])
+            kind = r.choice(['relabel', 'relabel', 'change', 'change'])
             inplace = r.random() < .5
-            if kind == 'change' and not set_done:
-                inplace = True       # inplace=False copies the receiver first, which blocks on an unfinished future
+            if kind == 'change' and not set_done and not inplace:
+                # inplace=False copies the receiver first, which waits for the future: let it complete from another thread
+                if r.random() < .25:
+                    code.append('import threading; threading.Timer(0.004, lambda: fut.set_result(ss.copy())).start()')
+                    set_done = True
+                    ctx.tick('lazy change_vartype inplace=False waits for the pending future')
+                else:
+                    inplace = True
+            if not set_done:
+                ctx.tick(f'lazy pending {kind} inplace={inplace}')
             if kind == 'relabel':
                 cur = cur_ref.labels if cur_ref else ref.labels
                 ks = r.sample(cur, r.randint(0, len(cur))) if cur else []
                 m = dict(zip(ks, r.sample(NEWLABELS, len(ks)))) if r.random() < .7 else {k_: r.choice(NEWLABELS + cur) for k_ in ks}
                 code.append(f'lazy = lazy.relabel_variables({m!r}, inplace={inplace})')
                 lines.append(f'lrelabel {reg} {reg + 1} {int(inplace)} ' + (','.join(f'{lab(a)}={lab(b)}' for a, b in m.items()) or '-'))
+                chain.append(f'R@{int(inplace)}@' + (','.join(f'{lab(a)}={lab(b)}' for a, b in m.items()) or '-'))
                 cur_ref = cur_ref.relabel(m) if cur_ref else None
             else:
                 vt = r.choice(['SPIN', 'BINARY'])
                 off = r.choice([F(0), F(1, 2), F(-3, 4)])
                 code.append(f'lazy = lazy.change_vartype({vt!r}, energy_offset={float(off)!r}, inplace={inplace})')
                 lines.append(f'lchangevt {reg} {reg + 1} {int(inplace)} {vt} {rat(off)}')
+                chain.append(f'C@{int(inplace)}@{vt}@{rat(off)}')
+                if off and not set_done:
+                    ctx.tick('lazy pending change_vartype with energy_offset')
                 cur_ref = cur_ref.change_vartype(vt, off) if cur_ref else None
             reg += 1
             expect.append('LAZY'); meta.append((kind + '-lazy', None, None))
+        # the whole chain at once through the model's `chainObject` (the function `lazy_chain_eq_eager` is about)
+        lines.append('lchain 1 9 ' + ';'.join(chain)); expect.append('LAZY'); meta.append(('chain-lazy', None, None))
+        if not early:
+            ctx.tick(f'lazy pending chain of {nops}')
         # run the script on the real objects
         genv = {}
         full = '\n'.join(code)
@@ -814,7 +880,7 @@ def lazy_cases(ctx, r, lines, expect, meta, ncases):
         # (i) fill in the expected model lines of the chain: the last one carries the resolved value
         idx = [i for i in range(len(expect)) if expect[i] == 'LAZY']
         for j, i in enumerate(idx):
-            if j == len(idx) - 1 and not raised_early:
+            if j >= len(idx) - 2 and not raised_early:
                 expect[i] = f'ok done={int(done_flag)} ' + (got if got else 'err')
             else:
                 expect[i] = None      # intermediate objects are not observable without resolving them
